@@ -163,6 +163,34 @@ def run(tier='quick'):
     from . import c08
     c08.chain_trigger_siblings(prog, chk, T1, tables=(), views=('playlistallchildren', 'playlistallparent', 'playlistpath'))
     # ---- T2 --------------------------------------------------------------------------
+    cycle_guard(prog, cg, eff, chk, T2, spec)
+
+    # ---- T3 --------------------------------------------------------------------------
+    _name_validation(prog, cg, eff, chk, T3)
+    # ---- T4 --------------------------------------------------------------------------
+    _id_immutable(prog, cg, eff, chk, T4)
+    # ---- T5 --------------------------------------------------------------------------
+    _sentinels(prog, cg, eff, chk, T5)
+    # ---- T6 --------------------------------------------------------------------------
+    position_pair(prog, cg, eff, chk, T6)
+    successor_is_sibling(prog, cg, eff, chk, T6)
+    T7 = chk.rule('T7', 're-parenting removes the old position of the moved crate from every relation it '
+                        'inserts the new position into, on every path (also when the crate becomes a root)',
+                  floor=1)
+    old_position_removed(prog, cg, eff, chk, T7)
+    T8 = chk.rule('T8', '1.x: every operation that adds or moves a crate writes the parent list and the full '
+                        'closure (ancestors of the parent x crate), which descendants() and the cycle guard read',
+                  floor=5)
+    from . import c11
+    c11.forest_encodings(prog, cg, eff, chk, T8, only=('root', 'sub', 'move'), paths=False)
+    return chk.finish('value-flow interpretation of the structural crate queries and mutators of both '
+                      'implementations down to the parsed SQL (tables, key columns bound to the handle id, '
+                      'returned columns, event order of reads / validator calls / throws / writes)')
+
+
+def cycle_guard(prog, cg, eff, chk, T2, spec=None):
+    if spec is None:
+        spec = json.load(open(SPEC))
     for qn, role in spec['closure'].items():
         for f, ip, ret in evaluate(prog, cg, eff, qn):
             chk.analysed(f)
@@ -186,23 +214,6 @@ def run(tier='quick'):
                               'becomes cyclic (2.x: the recursive views then never terminate)' % (
                                   _short(qn), 'no read of %s keyed on id() precedes the first write' % role['table']
                                   if not cl else 'no throw depends on the closure query'))
-
-    # ---- T3 --------------------------------------------------------------------------
-    _name_validation(prog, cg, eff, chk, T3)
-    # ---- T4 --------------------------------------------------------------------------
-    _id_immutable(prog, cg, eff, chk, T4)
-    # ---- T5 --------------------------------------------------------------------------
-    _sentinels(prog, cg, eff, chk, T5)
-    # ---- T6 --------------------------------------------------------------------------
-    position_pair(prog, cg, eff, chk, T6)
-    successor_is_sibling(prog, cg, eff, chk, T6)
-    T7 = chk.rule('T7', 're-parenting removes the old position of the moved crate from every relation it '
-                        'inserts the new position into, on every path (also when the crate becomes a root)',
-                  floor=1)
-    old_position_removed(prog, cg, eff, chk, T7)
-    return chk.finish('value-flow interpretation of the structural crate queries and mutators of both '
-                      'implementations down to the parsed SQL (tables, key columns bound to the handle id, '
-                      'returned columns, event order of reads / validator calls / throws / writes)')
 
 
 def _const(prog, name):
